@@ -43,7 +43,7 @@ def run(ctx):
                traces_validated_against_impl=len(lines), evaluations=nq, distinct_nontrivial=len(keys),
                rule="forests = every state of spec/TreeGen.tla (all trees of depth <= 3 with fan-out <= 2 over two leaf and two grouped codes, top level of up to MaxTop trees of depth <= 2, empty groups and repeated codes included) "
                     "+ seeded random forests (<= 200 nodes, depth <= 6); on each, FindAVP and FindAVPs for 5 codes (one absent) by number and by name, and FindAVPsWithPath for every path of length <= 3 "
-                    "(through non-grouped AVPs and absent codes included); returned pointers are mapped to positions by identity. non-trivial = a code occurs at least twice or inside a group; distinct by forest Since extended: three ways of building the message (complete, groups filled late, struct literals); every third forest uses the base dictionary's Failed-AVP as its second group; named paths with every element by name; by-name queries with the defining and with another vendor id; every fifth forest uses the vendor-specific twin.",
+                    "(through non-grouped AVPs and absent codes included); returned pointers are mapped to positions by identity. non-trivial = a code occurs at least twice or inside a group; distinct by forest Since extended: three ways of building the message (complete, groups filled late, struct literals); every third forest uses the base dictionary's Failed-AVP as its second group; named paths with every element by name; by-name queries with the defining and with another vendor id; every fifth forest uses the vendor-specific twin; a name the base application also defines; a group under a code typed otherwise; every query repeated after the first AVP was dropped from the message.",
                samples=[dict(tree=l["tree"], q=l["q"][:2]) for l in lines[50:len(lines):max(1, len(lines) // 3)]][:3],
                exhaustive=False, rejected_lines=len(bad), known_finding_hits={k: n for k, (n, _) in v.hits.items()})
     rc = v.finish()
